@@ -850,6 +850,12 @@ class IArr:
     def __itruediv__(s, o):
         return s._inplace(o, tdiv, "real")
 
+    def __matmul__(s, o):
+        return _matmul(s, o)
+
+    def __rmatmul__(s, o):
+        return _matmul(o, s)
+
     # ---- numpy protocols: real ufuncs / functions called on an IArr are routed to the stand-ins
     def __array_ufunc__(s, ufunc, method, *inputs, **kw):
         name = ufunc.__name__
@@ -864,6 +870,8 @@ class IArr:
                 op, kind = _UFUNC2[name]
                 arrs = [_lift(x) for x in inputs]
                 return _broadcast_op(arrs, op, kind)
+        if method == "__call__" and name == "matmul" and len(inputs) == 2:  # ndarray @ IArr
+            return _matmul(*inputs)
         if method == "reduce" and name in ("logical_or", "logical_and", "bitwise_or", "bitwise_and"):
             a = inputs[0]
             axis = kw.get("axis", 0)
@@ -1597,6 +1605,47 @@ def _transpose(a, axes=None):
     return a.transpose(axes) if axes is not None else a.transpose()
 
 
+def _matmul(a, b, **kw):
+    """a @ b of two 2d arrays with a concrete inner dimension K: out[i, j] = sum_k a[i, k] * b[k, j] (the outer
+    dimensions may be symbolic: a small matrix applied to a table of points)"""
+    if kw:
+        raise Unsupported("E3: matmul options")
+    a, b = _lift(a), _lift(b)
+    if a is None or b is None or a.ndim != 2 or b.ndim != 2:
+        raise Unsupported("E3: matmul of operands that are not both 2d")
+    K = a._shape[1]
+    if not same_size(K, b._shape[0]):
+        raise ValueError(f"matmul: Input operand 1 has a mismatch in its core dimension 0 (size {b._shape[0]} is different from {K})")
+    if not isinstance(K, int):
+        raise Unsupported("E3: matmul with a symbolic inner dimension")
+    ga, gb = a.snapshot(), b.snapshot()
+    kind = max((a.kind, b.kind), key=lambda k: _KRANK[k])
+    if kind == "bool":
+        raise Unsupported("E3: boolean matmul")
+    zero = {"int": 0, "real": 0.0}[kind]
+
+    def f(i, j):
+        acc = None
+        for k in range(K):
+            t = _real(Z(ga(i, k))) * _real(Z(gb(k, j)))
+            acc = t if acc is None else acc + t
+        return zero if acc is None else acc
+
+    return IArr((a._shape[0], b._shape[1]), f, kind)
+
+
+def _einsum(spec, *ops, **kw):
+    """np.einsum, only the axis exchange 'ij...->ji...' of one operand (felupe.math.transpose; a list of arrays is
+    stacked first, as np.asarray does)"""
+    if kw or len(ops) != 1 or not isinstance(spec, str) or spec.replace(" ", "") != "ij...->ji...":
+        raise Unsupported(f"E3: einsum({spec!r}) with {len(ops)} operands")
+    a = _lift(ops[0])
+    if a is None or a.ndim < 2:
+        raise Unsupported("E3: einsum operand")
+    g, sh = a.transpose((1, 0) + tuple(range(2, a.ndim))).snapshot(), a._shape
+    return IArr((sh[1], sh[0]) + tuple(sh[2:]), g, a.kind)  # einsum returns a new C-ordered array
+
+
 def _cumsum(x, **k):
     xs = list(x)
     out, acc = [], 0
@@ -1642,6 +1691,8 @@ _IMPL = {
     "asfortranarray": lambda a, **k: as_fortran(a),
     "reshape": lambda a, shape, **k: a.reshape(shape),
     "cumsum": _cumsum,
+    "matmul": _matmul,
+    "einsum": _einsum,
     "insert": _insert,
     "any": lambda a, axis=None, **k: a.any(axis),
     "all": lambda a, axis=None, **k: a.all(axis),
@@ -2372,6 +2423,13 @@ def selftest(seed=0):
         cmp("linspace", _linspace(-1.0, -1.0 + 0.5 * (r - 1), r), _np.linspace(-1.0, -1.0 + 0.5 * (r - 1), r))
         cmp("linspace(n=1)", _linspace(0.5, 2.0, 1), _np.linspace(0.5, 2.0, 1))
         cmp("linspace.reshape(-1, 1)", _linspace(0, r - 1, r).reshape(-1, 1), _np.linspace(0, r - 1, r).reshape(-1, 1))
+        cmp("einsum(ij...->ji...)", _einsum("ij...->ji...", _lift(A3)), _np.einsum("ij...->ji...", A3))
+        cmp("einsum(ij...->ji..., list).reshape", _einsum("ij...->ji...", [a, b, a]).reshape(3 * c, r), _np.einsum("ij...->ji...", [A, B, A]).reshape(3 * c, r))
+        cmp("matmul", a.T @ b, A.T @ B)
+        cmp("ndarray @ IArr", A.T @ b, A.T @ B)
+        cmp("IArr @ ndarray", a @ B.T, A @ B.T)
+        cmp("(M @ a.T).T", (_lift(B[:c, :c]) @ a.T).T, (B[:c, :c] @ A.T).T)
+        cmp("vstack[(M @ a.T).T][: r]", _vstack([(_lift(B[:c, :c]) @ a.T).T, (_lift(A[:c, :c]) @ a.T).T])[: 2 * r - r], _np.vstack([(B[:c, :c] @ A.T).T, (A[:c, :c] @ A.T).T])[: 2 * r - r])
         cmp("pad", _pad(a, ((0, 0), (0, 1))), _np.pad(A, ((0, 0), (0, 1))))
         cmp("pad-0", _pad(a, ((0, 0), (0, 0))), _np.pad(A, ((0, 0), (0, 0))))
         cmp("pad-both", _pad(a, ((1, 0), (2, 1))), _np.pad(A, ((1, 0), (2, 1))))
